@@ -1,6 +1,6 @@
 // ======================================================================================
-// fragment graph_walk.rs - the detached walker of Graph (C01): Neighbors::detach, WalkNeighbors::next / next_node /
-// next_edge.  A walker holds no borrow of the graph; stepping it through a graph g yields the same sequence as the
+// fragment graph_walk.rs - the detached walker of Graph (C01, also the engine of StableGraph's walker): WalkNeighbors::next /
+// next_node / next_edge (Neighbors::detach of Graph is in graph_walk_detach.rs).  A walker holds no borrow of the graph; stepping it through a graph g yields the same sequence as the
 // Neighbors iterator it was detached from would, each neighbour together with the edge that leads to it.
 // ======================================================================================
 
@@ -37,24 +37,6 @@ impl<Ix: IndexType> WalkNeighbors<Ix> {
     pub open spec fn ok<E>(&self, es: Seq<Edge<E, Ix>>) -> bool { has_chain(es, self.next[0], 0) && has_chain(es, self.next[1], 1) }
     /// what is still to come: (edge index, neighbour)
     pub open spec fn rem<E>(&self, es: Seq<Edge<E, Ix>>) -> Seq<(int, NodeIndex<Ix>)> { wk_out(es, self.rest0(es)) + wk_in(es, self.rest1(es), self.skip_start.0.ix() as int) }
-}
-
-impl<'a, E, Ix: IndexType> Neighbors<'a, E, Ix> {
-//@ item src/graph_impl/mod.rs | impl<E, Ix> Neighbors<'_, E, Ix> where Ix: IndexType | fn detach
-    /// Return a “walker” object that can be used to step through the
-    /// neighbors and edges from the origin node.
-    pub fn detach(&self) -> (r: WalkNeighbors<Ix>)
-        /*+*/ensures r.skip_start == self.skip_start, r.next == self.next,          // [detach_same_position]
-            r.ok(self.edges@) == self.ok(),
-            self.ok() ==> r.rem(self.edges@).len() == self.rem().len() && (forall|i: int| 0 <= i < self.rem().len() ==> (#[trigger] r.rem(self.edges@)[i]).1 == self.rem()[i])/*-*/   // [detach_walks_the_same_neighbours]
-    {
-        /*+*/proof { lemma_wk_in_nodes(self.edges@, self.rest1(), self.skip_start.0.ix() as int); }/*-*/
-        WalkNeighbors {
-            skip_start: self.skip_start,
-            next: self.next,
-        }
-    }
-//@ end
 }
 
 impl<Ix: IndexType> WalkNeighbors<Ix> {
